@@ -293,7 +293,6 @@ def clone_completeness(repo, rep, rule):
 _OWNED_EXEMPT = {
     # (module, function, aliased member): reviewed reason
     ("tflite_graph_optimiser", "fixup_strided_conv", "weight_tensor.shape"): "the rewrite replaces values, all shapes (set_all_shapes) and the value id of the NPU operator's own weight tensor together",
-    ("operation", "Operation.get_split_inputs_axis", "size_tens.values"): "called by rewrite_split_ops for NPU-placed operators only; the size constant is the operator's own clone and is absorbed",
 }
 _OWNED_MUTATORS = ("insert", "append", "extend", "pop", "remove", "reverse", "sort", "clear", "fill", "resize", "itemset", "put")
 
